@@ -2,8 +2,8 @@
 C18, range lemmas of the routing / graph generators as functions of the raw draws: coordinates and every other
 affine sampler stay within their bounds, CVRP integer demands lie in `[min_demand, max_demand]` and — divided by the
 table capacity, for every size on or off the table — never exceed 1 (so generated instances satisfy the CVRP
-environment's `WF`), OP prizes, PDP pairing, MCP membership rows.  Two generator defects are stated and refuted:
-OP's `const`/`unif` prize types and MCP's `cutoffs_masks` width.
+environment's `WF`), OP prizes, PDP pairing, MCP membership rows.  (The three generator defects once refuted here — OP's `const`/`unif` prize types, MCP's `cutoffs_masks` width, the
+`"center"` constant — are fixed upstream; their statements are now full theorems.)
 -/
 import Rl4co.Gen.Basic
 import Rl4co.Gen.Routing
@@ -84,19 +84,12 @@ theorem svrp_skill_le_best (techMax : Int) (p2 q2 : Nat) (h0 : 0 ≤ techMax) (h
 
 /-! ### the `"center"` distribution -/
 
-/-- C18 "coordinates within bounds" for the `"center"` distribution as stated: the constant lies in `[lo, hi]` -/
-def center_in_bounds_statement : Prop :=
-  ∀ lo hi : Int, lo ≤ hi → 2 * lo ≤ centerTwice lo hi ∧ centerTwice lo hi ≤ 2 * hi
-
-/-- it fails for a box that does not start at 0: `get_sampler` uses `(high − low)/2`, not `(high + low)/2`
-(`min_loc = 2, max_loc = 3` puts every "centre" at 0.5) -/
-theorem center_in_bounds_counterexample : ¬ center_in_bounds_statement := by
-  intro h; have := h 2 3 (by decide); simp [centerTwice] at this
-
-/-- in bounds exactly when `3·lo ≤ hi` (in particular for the default `lo = 0`) -/
-theorem center_in_bounds_partial (lo hi : Int) (h0 : 0 ≤ lo) (_h : lo ≤ hi) :
-    (2 * lo ≤ centerTwice lo hi ∧ centerTwice lo hi ≤ 2 * hi) ↔ 3 * lo ≤ hi := by
+/-- **center_in_bounds**: the constant of the `"center"` distribution, `(high + low)/2`, lies in `[low, high]`
+for every box (fixed upstream in 4726d9c; before it was `(high − low)/2`) -/
+theorem center_in_bounds (lo hi : Int) (h : lo ≤ hi) : 2 * lo ≤ centerTwice lo hi ∧ centerTwice lo hi ≤ 2 * hi := by
   unfold centerTwice; omega
+
+example : centerTwice 2 3 = 5 := by decide
 
 /-! ### CVRP -/
 
@@ -152,32 +145,34 @@ example : cvrpDemand 1 10 7 8 = 8 ∧ demandFits 8 (30, 1) = true := by decide
 
 /-! ### OP prizes -/
 
+/-- admissible raw input of a prize type: `const` none, `unif` an integer draw of `randint(0, 100)`,
+`dist` a distance `0 ≤ d ≤ dmax` with `dmax > 0` -/
+def PrizeInput (t : PrizeType) (x dmax : Int) : Prop :=
+  match t with
+  | .const => True
+  | .unif => 0 ≤ x ∧ x < 100
+  | .dist => 0 ≤ x ∧ x ≤ dmax ∧ 0 < dmax
+
 /-- `prize_type = "dist"`: prizes are hundredths in `[1, 100]` (so `0.01 ≤ prize ≤ 1`) -/
 theorem op_prize_range (d dmax : Int) (h0 : 0 ≤ d) (h1 : d ≤ dmax) (h2 : 0 < dmax) :
-    ∃ v, opPrize100 .dist d dmax = some v ∧ 1 ≤ v ∧ v ≤ 100 := by
-  refine ⟨1 + Int.tdiv (d * 99) dmax, rfl, ?_, ?_⟩
-  · rw [Int.tdiv_eq_ediv_of_nonneg (by omega)]
-    have := Int.ediv_nonneg (by omega : 0 ≤ d * 99) h2.le
-    omega
-  · rw [Int.tdiv_eq_ediv_of_nonneg (by omega)]
-    have : d * 99 / dmax ≤ 99 := Int.ediv_le_of_le_mul h2 (by omega)
-    omega
+    1 ≤ opPrize100 .dist d dmax ∧ opPrize100 .dist d dmax ≤ 100 := by
+  unfold opPrize100
+  simp only []
+  rw [Int.tdiv_eq_ediv_of_nonneg (by omega)]
+  have h3 := Int.ediv_nonneg (by omega : 0 ≤ d * 99) h2.le
+  have h4 : d * 99 / dmax ≤ 99 := Int.ediv_le_of_le_mul h2 (by omega)
+  omega
 
-/-- C18 for OP as stated: every documented prize type yields prizes -/
-def op_prize_total_statement : Prop :=
-  ∀ (t : PrizeType) (d dmax : Int), 0 ≤ d → d ≤ dmax → 0 < dmax → (opPrize100 t d dmax).isSome = true
+/-- **op_prize_total**: every documented prize type (`const`, `unif`, `dist`) yields a prize in `[0.01, 1]`
+(hundredths in `[1, 100]`) for every admissible draw (the `const`/`unif` branches run since a68723b) -/
+theorem op_prize_total (t : PrizeType) (x dmax : Int) (h : PrizeInput t x dmax) :
+    1 ≤ opPrize100 t x dmax ∧ opPrize100 t x dmax ≤ 100 := by
+  cases t with
+  | const => simp [opPrize100]
+  | unif => simp only [PrizeInput] at h; simp only [opPrize100]; omega
+  | dist => exact op_prize_range x dmax h.1 h.2.1 h.2.2
 
-/-- it fails: `const` (and `unif`) raise — the generator reads `self.device`, which it never sets -/
-theorem op_prize_total_counterexample : ¬ op_prize_total_statement := by
-  intro h; have := h .const 1 1 (by decide) (by decide) (by decide); simp [opPrize100] at this
-
-theorem op_prize_total_partial (d dmax : Int) (h0 : 0 ≤ d) (h1 : d ≤ dmax) (h2 : 0 < dmax) :
-    (opPrize100 .dist d dmax).isSome = true := by
-  obtain ⟨v, hv, _⟩ := op_prize_range d dmax h0 h1 h2; simp [hv]
-
-/-- what the `unif` branch computes once the attribute error is repaired: hundredths in [1, 100] -/
-theorem op_prize_unif_intended (r : Int) (h : 0 ≤ r ∧ r < 100) : 1 ≤ opPrizeUnifIntended r ∧ opPrizeUnifIntended r ≤ 100 := by
-  unfold opPrizeUnifIntended; omega
+example : opPrize100 .unif 99 0 = 100 ∧ opPrize100 .const 0 0 = 100 ∧ opPrize100 .dist 5 13 = 39 := by decide
 
 /-! ### PDP pairing -/
 
@@ -200,35 +195,6 @@ theorem mcp_clamp_range (mn mx : Int) (p q : Nat) (h : mn ≤ mx) :
   unfold mcpClampFloor
   simp only [Int.max_def, Int.min_def]
   split_ifs <;> omega
-
-/-- C18 for the MCP generator as stated: for every draw of set sizes (the membership tensor has as many columns
-`m` as the largest sampled size, `1 ≤ m ≤ max_size`) a membership row comes out -/
-def mcp_gen_total_statement : Prop :=
-  ∀ (maxSize : Nat) (items : List Nat) (size : Nat), 1 ≤ items.length → items.length ≤ maxSize →
-    (mcpRow maxSize items size).isSome = true
-
-/-- it fails: `max_size = 3`, largest sampled size 2 — `cutoffs_masks` has 3 columns, the membership tensor 2 -/
-theorem mcp_gen_total_counterexample : ¬ mcp_gen_total_statement := by
-  intro h; have := h 3 [1, 2] 2 (by decide) (by decide); simp [mcpRow] at this
-
-/-- exactly when the largest sampled size reaches `max_size` (or is 1, where broadcasting hides the mismatch)
-does generation succeed -/
-theorem mcp_gen_total_partial (maxSize : Nat) (items : List Nat) (size : Nat) (h1 : 1 ≤ items.length) (h2 : items.length ≤ maxSize) :
-    (mcpRow maxSize items size).isSome = true ↔ (items.length = maxSize ∨ items.length = 1) := by
-  unfold mcpRow
-  simp only []
-  by_cases ha : items.length = maxSize
-  · simp [ha]
-  · by_cases hb : items.length = 1
-    · have hm : ¬ (1 = maxSize) := by omega
-      simp [hb, hm]
-    · have hc : maxSize ≠ 1 := by omega
-      simp [ha, hb, hc]
-
-/-- when it succeeds with `m = max_size` the row is the intended one (mask cut at the sampled maximum) -/
-theorem mcp_row_eq_intended (items : List Nat) (size : Nat) :
-    mcpRow items.length items size = some (mcpRowIntended items size) := by
-  simp [mcpRow, mcpRowIntended]
 
 theorem count_map_zero (a x : Nat) (hx : x ≠ 0) (l : List Nat) :
     (l.map (fun y => if y = a then 0 else y)).count x = if x = a then 0 else l.count x := by
@@ -261,5 +227,43 @@ theorem removeRepeat_length (l : List Nat) : (removeRepeat l).length = l.length 
   induction l with
   | nil => simp [removeRepeat]
   | cons y ys ih => simp [removeRepeat, ih]
+
+
+theorem removeRepeat_mem (l : List Nat) (x : Nat) (hx : x ∈ removeRepeat l) : x = 0 ∨ x ∈ l := by
+  induction l generalizing x with
+  | nil => simp [removeRepeat] at hx
+  | cons y ys ih =>
+    simp only [removeRepeat, List.mem_cons, List.mem_map] at hx
+    rcases hx with rfl | ⟨z, hz, hzx⟩
+    · right; simp
+    · split at hzx
+      · left; exact hzx.symm
+      · subst hzx
+        rcases ih z hz with h | h
+        · left; exact h
+        · right; simp [h]
+
+/-- **mcp_gen_total**: for every draw of items and every (clamped) set size a membership row comes out, as wide as
+the sampled maximum; no item is listed twice; every listed item is one of the first `size` drawn items (fixed
+upstream in 202be23: the mask is cut at the sampled maximum) -/
+theorem mcp_gen_total (items : List Nat) (size : Nat) :
+    (mcpRow items size).length = items.length ∧
+    (∀ x, x ≠ 0 → (mcpRow items size).count x ≤ 1) ∧
+    (∀ x, x ∈ mcpRow items size → x = 0 ∨ x ∈ items.take size) := by
+  refine ⟨by simp [mcpRow, removeRepeat_length], fun x hx => removeRepeat_nodup _ x hx, ?_⟩
+  intro x hx
+  rcases removeRepeat_mem _ x hx with h | h
+  · left; exact h
+  · simp only [List.mem_map, List.mem_range] at h
+    obtain ⟨k, hk, hkx⟩ := h
+    split at hkx
+    · right
+      rw [List.mem_take_iff_getElem]
+      refine ⟨k, by omega, ?_⟩
+      simp [List.getD_eq_getElem?_getD, hk] at hkx
+      exact hkx
+    · left; exact hkx.symm
+
+example : mcpRow [3, 3, 5] 2 = [3, 0, 0] ∧ mcpRow [1, 2] 2 = [1, 2] := by decide
 
 end Rl4co.Gen
